@@ -378,15 +378,24 @@ def synth(rng, modname, base, today, budget, enter=True):
         r = repair(mod, s, locked, today, enter, calls)
         if r is not None and r not in out:
             out.append(r)
-    positions = list(range(len(base)))
-    rng.shuffle(positions)
-    for i in positions:
-        ch = base[i]
-        alpha = DIG if ch.isdigit() else UP if ch.isalpha() else ''
-        for c in alpha:
-            if c != ch:
-                add(base[:i] + c + base[i + 1:], {i})
+    def substitutions():
+        positions = list(range(len(base)))
+        rng.shuffle(positions)
+        for i in positions:
+            ch = base[i]
+            alpha = DIG if ch.isdigit() else UP if ch.isalpha() else ''
+            for c in alpha:
+                if c != ch:
+                    add(base[:i] + c + base[i + 1:], {i})
     spec = DATE_SPECS.get(modname)
+    if spec is None:
+        substitutions()
+        return out
+    # the date fields first, on a budget of their own (repairing check digits after every substitution used to eat
+    # the whole allowance before an edge date was tried), then the substitutions on what is left
+    calls_subst, calls = calls, Budget(budget * 25 // SLOW_VALIDATE.get(modname, 1))
+    budget_dates = budget
+    budget = budget * 2
     if spec is not None and all(c.isdigit() for c in base[spec[0]] + base[spec[2]] + base[spec[4]]):
         ys, ymod, ms, mf, ds, df = spec
         locked = set(range(*ys.indices(len(base)))) | set(range(*ms.indices(len(base)))) | set(range(*ds.indices(len(base))))
@@ -405,7 +414,10 @@ def synth(rng, modname, base, today, budget, enter=True):
                     s[ys] = list(ytxt)
                     s[ms] = list('%02d' % ((int(mm) + mo) % 100))
                     s[ds] = list('%02d' % ((int(dd) + do) % 100))
-                    add(''.join(s), locked)
+                    if len(out) < budget_dates:
+                        add(''.join(s), locked)
+    calls = calls_subst
+    substitutions()
     return out
 
 
